@@ -106,6 +106,7 @@ func TestVP_C31_Pause(t *testing.T) {
 		}
 		prevArm := map[string]vpArm{} // arm replaced by a later Schedule whose timer may already have fired
 		overtaken := 0
+		successPaused := 0
 		judge := func() {
 			h.mu.Lock()
 			starts := append([]vpC31Start(nil), h.starts...)
@@ -215,6 +216,17 @@ func TestVP_C31_Pause(t *testing.T) {
 				if ok {
 					ch <- nil
 					delete(armedAt, a)
+					// a successful attempt ends the backoff sequence, paused or not: the next
+					// Schedule for this peer starts again from the initial delay
+					for i := 0; i < 4000 && (r.GetAttempts(a) != 0 || r.IsPending(a)); i++ {
+						time.Sleep(500 * time.Microsecond)
+					}
+					if n := r.GetAttempts(a); n != 0 || r.IsPending(a) {
+						t.Fatalf("VPFAIL C31 the attempt to %s succeeded (paused=%v) but its backoff state survives: %d attempts still counted, pending=%v, so the next reconnection starts from a grown delay\n  config %+v\n  history: %s", a, isPaused, n, r.IsPending(a), cfg, strings.Join(append(hist, "finish("+a+",ok=true)"), "; "))
+					}
+					if isPaused {
+						successPaused++
+					}
 				} else {
 					ch <- errors.New("dial failed")
 					if !isPaused {
@@ -280,6 +292,9 @@ func TestVP_C31_Pause(t *testing.T) {
 		cls := "no-pause-in-flight"
 		if nt {
 			cls = "pause-while-in-flight-then-failure"
+		}
+		if successPaused > 0 {
+			st.Count("attempt-succeeded-while-paused", successPaused)
 		}
 		if overtaken > 0 {
 			st.Count("attempts-of-a-timer-overtaken-by-a-later-Schedule(judged against their own arm)", overtaken)
